@@ -13,8 +13,8 @@ import (
 
 func init() {
 	register("C18", &propDef{
-		Run: checkC18,
-		Explanation: "Static decision of the structural clauses of C18 (sanitizer-last taint rule with a computed quoting context). (1) The value executed against the list template is a []string every element of which was last assigned strings.ReplaceAll(that element, \"'\", `'\\''`) by a loop ranging over the whole slice, with no later modification of the slice; (2) in the template text, parsed and lexed as POSIX shell, the only action printing an element sits inside single quotes, for which exactly that replacement is the complete escape (inside '…' no other character is special); (3) rows cannot contain a newline: the slice comes from strings.Split(…, \"\\n\") of the tab-writer's output and elements are not concatenated afterwards; empty rows are removed, rows are sorted and de-duplicated before escaping; (4) every payload line is considered: the scan is a range over strings.Split(payload, \"\\n\"), tagged lines are recognised by the DocPrefix constant, name and description are split at the first blank; the function's own row is written first. echo's treatment of backslashes and the tab-writer's cell bytes are outside.",
+		Run:         checkC18,
+		Explanation: "Static decision of the structural clauses of C18 (sanitizer-last taint rule with a computed quoting context). (1) The value executed against the list template is a []string every element of which was last assigned strings.ReplaceAll(that element, \"'\", `'\\''`) by a loop ranging over the whole slice, with no later modification of the slice; (2) in the template text, parsed and lexed as POSIX shell, the only action printing an element sits inside single quotes, for which exactly that replacement is the complete escape (inside '…' no other character is special); (3) rows cannot contain a newline: the slice comes from strings.Split(…, \"\\n\") of the tab-writer's output and elements are not concatenated afterwards; empty rows are removed, rows are sorted and de-duplicated before escaping; (4) every payload line is considered: the scan is a range over strings.Split(payload, \"\\n\"), tagged lines are recognised by the DocPrefix constant, name and description are split at the first blank; the function's own row is written first. echo's treatment of backslashes and the tab-writer's cell bytes are outside. Also: the returned bytes are rooted in buffers allocated by the call.",
 		Assumptions: []string{"POSIX shell: inside single quotes every character except ' is literal; '\\'' closes, emits a quote, and re-opens"},
 	})
 }
